@@ -130,7 +130,7 @@ def finish(ctx, explanation, level='other'):
     return 1 if (new or ctx.broken) else 0
 
 
-def other_configurations(ctx):
+def other_configurations(ctx, only=None):
     """thorough tier of the table properties: the property's own rules on every other feature configuration"""
     import importlib, json
     from . import load
@@ -142,6 +142,8 @@ def other_configurations(ctx):
     ctx.rules_run.append('(thorough) the rules above on configurations none / half / alloc / std of minicbor (+ minicbor-serde where the rule uses it)')
     for core, serde in c20.THOROUGH:
         if ctx.pid == 'C02' and not serde:
+            continue
+        if only is not None and core not in only:
             continue
         label = core.replace('core-', '')
         load.ALIAS = {'core-full': core}
@@ -172,6 +174,10 @@ def main(argv):
     ctx = Ctx(a.pid, a.tier if a.tier in ('quick', 'thorough') else 'quick', seed)
     try:
         expl = rules.run(ctx)
+        if ctx.tier == 'quick' and ctx.pid == 'C12':
+            # the float accessors have a different shape without `half` (no 0xf9 arms): the quick tier covers that build too
+            expl += ' The same rules are also run on the build without the `half` feature.'
+            other_configurations(ctx, only=('core-none',))
         if ctx.tier == 'thorough' and ctx.pid in ('C01', 'C02', 'C03', 'C04', 'C05', 'C12', 'C13'):
             expl += ' Thorough tier: the same rules re-run on the MIR of the other feature configurations (none, half, alloc, std).'
             other_configurations(ctx)
